@@ -372,12 +372,14 @@ def cases(tier, seed):
                     'chunk labels %s (-1 = no chunk), arbitrary points in R^%d, %s' % (list(ch), d, 'n_components=1 (Fisher step, lstsq/eig recorded)' if red else 'full dimension'),
                     tiers=tiers, cost=10, validate=4))
   out.append(case('rca_kept_direction', rca_direction_case(), FUNCS, 'fixed data, arbitrary spectrum returned by eig: which direction is kept', cost=3, validate=0))
-  for labels, d, k in (((0, 0, 0, 0, 1, 1, 1), 2, 1), ((0, 1, 2, 0, 1, 2, 0, 1, 2, 0), 3, 2)):
+  for labels, d, k in (((0, 0, 0, 0, 1, 1, 1), 2, 1), ((0, 1, 2, 0, 1, 2, 0, 1, 2, 0), 3, 2), ((0, 0, 0, 1, 1, 1), 2, 1), ((0, 1, 0, 1, 0), 2, 1)):
     out.append(case('lfda_sampled_%s_d%d_k%d' % (''.join(map(str, labels)), d, k), lfda_case(labels, d, k, 'weighted'), FUNCS,
                     'labels %s, 8 random data sets in R^%d, k=%d: scatter matrices handed to the eigen-solver vs the documented definition (sampled, not solver-decided)' % (list(labels), d, k),
                     concrete_only=True, validate=8, cost=2))
-  for labels, d, k, emb, tiers in (((0, 0, 1, 1), 2, 1, 'plain', Q), ((0, 0, 1, 1), 2, 1, 'weighted', Q), ((0, 0, 0, 1, 1), 2, 1, 'plain', T),
-                                   ((0, 1, 0, 1, 0), 2, 1, 'plain', T), ((0, 0, 0, 1, 1, 1), 2, 1, 'plain', T), ((0, 0, 1, 1), 1, 1, 'plain', T)):
+  # (class layouts with 3+ members produce exp atoms whose arguments are equal but not syntactically so: the
+  #  solver then returns spurious models that the replay rejects -- those layouts are only sampled above)
+  for labels, d, k, emb, tiers in (((0, 0, 1, 1), 2, 1, 'plain', Q), ((0, 0, 1, 1), 2, 1, 'weighted', Q), ((0, 1, 0, 1), 2, 1, 'plain', T),
+                                   ((0, 0, 1, 1), 1, 1, 'plain', T)):
     out.append(case('lfda_%s_d%d_k%d_%s' % (''.join(map(str, labels)), d, k, emb), lfda_case(labels, d, k, emb), FUNCS,
                     'labels %s, arbitrary points in R^%d, k=%d, embedding_type=%s; generalised eigen-solver replaced by a recorder' % (list(labels), d, k, emb),
                     tiers=tiers, cost=30, max_paths=100000, validate=4, hard_timeout_s=2000))
